@@ -58,7 +58,8 @@ Section TrackSolver.
       | Some f => bind (push 1 c) (fun c => bind (add_assertion f c) (fun c =>
                     Ok (mkT (astk c) (bpts c) true)))
       end).
-  (* Solver.is_sat: self.push(); self.add_assertion(f); res = self.solve(); pending_pop = True *)
+  (* Solver.is_sat: self.push(); try: self.add_assertion(f); res = self.solve()
+                     finally: self.pending_pop = True *)
   Definition is_sat (f : F) (c : tst) : result tst :=
     bind (push 1 c) (fun c => bind (add_assertion f c) (fun c => bind (solve None c) (fun c =>
       Ok (mkT (astk c) (bpts c) true)))).
@@ -71,7 +72,11 @@ Section TrackSolver.
   Inductive scmd :=
   | SAdd (f : F) | SPush (n : nat) | SPop (n : nat) | SReset
   | SSolve (other : option F) | SIsSat (f : F) | SIsValid (f : F) | SIsUnsat (f : F)
-  | SObserve.                        (* reading solver.assertions *)
+  | SObserve                         (* reading solver.assertions *)
+  (* the same calls when the native solver answers "unknown": _solve raises
+     SolverReturnedUnknownResultError after its bookkeeping, the exception propagates to the
+     caller; the step is the state the call leaves behind *)
+  | SSolveUnk (other : option F) | SIsSatUnk (f : F) | SIsValidUnk (f : F) | SIsUnsatUnk (f : F).
 
   (* the SMT-LIB command a call stands for; queries are not assertion-stack commands *)
   Definition to_spec (x : scmd) : cmd F unit :=
@@ -83,7 +88,11 @@ Section TrackSolver.
     | _ => COther
     end.
   Definition oneshot (x : scmd) : bool :=
-    match x with SSolve _ | SIsSat _ | SIsValid _ | SIsUnsat _ => true | _ => false end.
+    match x with
+    | SSolve _ | SIsSat _ | SIsValid _ | SIsUnsat _
+    | SSolveUnk _ | SIsSatUnk _ | SIsValidUnk _ | SIsUnsatUnk _ => true
+    | _ => false
+    end.
 
   Definition t_step (c : tst) (x : scmd) : result tst :=
     match x with
@@ -96,6 +105,12 @@ Section TrackSolver.
     | SIsValid f => is_valid f c
     | SIsUnsat f => is_unsat f c
     | SObserve => bind (assertions c) (fun r => Ok (fst r))
+    (* IncrementalTrackingSolver.solve only records _last_result = "unknown" and re-raises;
+       Solver.is_sat sets pending_pop in a `finally`, so the pushed level goes also then *)
+    | SSolveUnk o => solve o c
+    | SIsSatUnk f => is_sat f c
+    | SIsValidUnk f => is_valid f c
+    | SIsUnsatUnk f => is_unsat f c
     end.
   Fixpoint t_run (c : tst) (cs : list scmd) : result tst :=
     match cs with
@@ -116,7 +131,8 @@ End TrackSolver.
 
 Arguments SAdd {F}. Arguments SPush {F}. Arguments SPop {F}. Arguments SReset {F}.
 Arguments SSolve {F}. Arguments SIsSat {F}. Arguments SIsValid {F}. Arguments SIsUnsat {F}.
-Arguments SObserve {F}.
+Arguments SObserve {F}. Arguments SSolveUnk {F}. Arguments SIsSatUnk {F}. Arguments SIsValidUnk {F}.
+Arguments SIsUnsatUnk {F}.
 Arguments mkT {F}. Arguments astk {F}. Arguments bpts {F}. Arguments pending {F}.
 Arguments t_init {F}. Arguments t_step {F}. Arguments t_run {F}. Arguments t_trace {F}.
 Arguments assertions {F}. Arguments to_spec {F}. Arguments oneshot {F}.
